@@ -284,14 +284,41 @@ func checkC14(c *Ctx) {
 					{Val: "EMERALD", Brace: true, Items: []ListItem{{Name: names["b"]}, {Name: names["T"]}}},
 					{Val: "RUBY", Brace: r.Chance(1, 2), Items: []ListItem{sel}}}}}
 			}
+			// sometimes a poryswitch whose selected case is empty, next to a non-empty default
+			if r.Chance(1, 4) {
+				k := r.Intn(len(items) + 1)
+				empty := ListItem{PS: &ListPS{Switch: "GAME", Cases: []ListPSCase{
+					{Val: "RUBY", Brace: true, Items: []ListItem{}},
+					{Val: "_", Brace: true, Items: []ListItem{{Name: names["b"]}, {Name: names["T"]}}}}}}
+				if r.Chance(1, 2) {
+					empty.PS.Cases[0], empty.PS.Cases[1] = empty.PS.Cases[1], empty.PS.Cases[0]
+				}
+				items = append(items[:k], append([]ListItem{empty}, items[k:]...)...)
+			}
 			id := fmt.Sprintf("l%d.%s", i, kind)
 			f := &File{}
+			// mart items may be written through constants (also one that aliases the terminator)
+			var consts []Top
+			if kind == "mart" && r.Chance(1, 2) {
+				alias := map[string]string{}
+				for k := range items {
+					if items[k].PS != nil || !r.Chance(1, 2) {
+						continue
+					}
+					n := items[k].Name
+					if _, ok := alias[n]; !ok {
+						alias[n] = fmt.Sprintf("K_%d_%d", i, len(alias))
+						consts = append(consts, Top{K: "const", Name: alias[n], Val: []string{n}})
+					}
+					items[k].Name = alias[n]
+				}
+			}
 			label := "L" + fmt.Sprint(i)
 			switch kind {
 			case "movement":
 				f.Tops = []Top{{K: "movement", Name: label, Items: items}}
 			case "mart":
-				f.Tops = []Top{{K: "mart", Name: label, Items: items}}
+				f.Tops = append(consts, Top{K: "mart", Name: label, Items: items})
 			default:
 				f.Tops = []Top{{K: "script", Name: "S", Body: []Stmt{{K: "cmd", Toks: []string{"applymovement", "OBJ", ",", "@inl0"},
 					Inl: []Inline{{Kind: "moves", Steps: items}}}}}}
